@@ -1223,11 +1223,24 @@ class ExprMixin:
             # the first iterable is evaluated (once) in the enclosing scope, as Python does
             first_iter = self.eval(node.generators[0].iter)
             g0 = self.resolve(first_iter)
-            if len(node.generators) == 1 and not node.generators[0].is_async and kind != 'gen':
+            if len(node.generators) == 1 and not node.generators[0].is_async and \
+                    (kind != 'gen' or isinstance(node.generators[0].iter, (ast.Name, ast.Attribute, ast.Tuple, ast.List))
+                     or self._const_range(node.generators[0].iter)):
                 # a small concrete collection (a literal, the items of a fully known dictionary): one exact evaluation per item
                 if isinstance(g0, (TupleV, ListV)) and g0.items is not None and len(g0.items) <= 16 and \
                         not getattr(g0, 'loop_open', False):
                     r = self._comprehension_exact(node, elt, kind, list(g0.items))
+                    if r is not None:
+                        return r
+                src0 = getattr(g0, 'src', None)
+                if isinstance(g0, IterV) and isinstance(src0, PyLit) and isinstance(src0.value, dict) and len(src0.value) <= 300 \
+                        and getattr(g0, 'desc', None) in ('items', 'values') and kind != 'gen':
+                    # a comprehension over the packaged configuration literal: constant folding, entry by entry
+                    items = []
+                    for key_, val_ in src0.value.items():
+                        child = self.from_py_lit(val_, f'{src0.path}[{key_!r}]', src0.tags)
+                        items.append(TupleV([self.from_py(key_), child]) if g0.desc == 'items' else child)
+                    r = self._comprehension_exact(node, elt, kind, items)
                     if r is not None:
                         return r
             if isinstance(g0, GenCallV) and (kind != 'gen' or self._consumed_at_once(node)):
